@@ -7,7 +7,8 @@ Model of the drawing add-on front end (DESIGN.md section 7, C18), core Lean only
     `resolve_visible`, `push_state`, `pop_state`, `inside_block_reference`, `DEFAULT_LAYER_PROPERTIES`;
   * `src/ezdxf/addons/drawing/frontend.py`  `_draw_entities`, `draw_entity`, `draw_composite_entity/draw_insert`,
     the leaf draw methods for LINE, POINT (pdmode 0, "defpoints" quirk), LWPOLYLINE without width/bulge
-    (`path.tools.add_2d_polyline`), SOLID (`Solid.vertices` order quirk), CIRCLE (center only);
+    (`path.tools.add_2d_polyline`), SOLID (`Solid.vertices` order quirk), CIRCLE / ARC / ELLIPSE (kind `circle`: the centre of
+    the curve entity that reaches the draw method - after a non-uniform scaling that is the ELLIPSE of `Ellipse.from_arc`);
   * `src/ezdxf/explode.py` `virtual_block_reference_entities` (copy, skip ATTDEF, transform by `matrix44()`);
   * `src/ezdxf/entities/insert.py` `Insert.matrix44` (`xfOf`) and `Insert.transform` =
     `math/transformtools.py InsertCoordinateSystem.transform` (`transformIns`) for z = 0, zscale = 1,
@@ -800,6 +801,72 @@ def drawLayoutVp (doc : Doc) (ctx : Ctx) (mk : Vp → Ctx) (ents : List Ent) (vp
     match drawVps doc mk msp (selectVps (·.status) vps) with
     | .error e => .error e
     | .ok os => .ok (o ++ os, st)
+
+/-! ## the pipeline stage between the front end and the backend: colour policy with its cache, background policy -/
+
+/-- `config.ColorPolicy` -/
+inductive ColorPolicy where
+  | color | swapBW | negative | monochrome | monoDark | monoLight | black | white | custom
+deriving DecidableEq, Repr, Inhabited
+
+/-- `apply_color_policy(color, policy, custom_fg_color)`: the policy maps the RGB part, the alpha of the colour is kept - except
+    for CUSTOM, which takes colour AND alpha of `custom_fg_color`.  `gray` = `color_to_monochrome` with scale/offset of the
+    monochrome policy (floating point luminance; read from the live code for the colours of a request) -/
+def applyColorPolicy (pol : ColorPolicy) (custom : Color) (gray : Nat → Nat) (c : Color) : Color :=
+  match pol with
+  | .color => c
+  | .swapBW => ⟨if c.rgb = 0 then 0xFFFFFF else if c.rgb = 0xFFFFFF then 0 else c.rgb, c.alpha⟩
+  | .negative => ⟨0xFFFFFF - c.rgb, c.alpha⟩
+  | .monochrome => ⟨gray c.rgb, c.alpha⟩
+  | .monoDark => ⟨gray c.rgb, c.alpha⟩
+  | .monoLight => ⟨gray c.rgb, c.alpha⟩
+  | .black => ⟨0, c.alpha⟩
+  | .white => ⟨0xFFFFFF, c.alpha⟩
+  | .custom => custom
+
+/-- `RenderPipeline2d.get_backend_properties`: `self._color_mapping` is a dict keyed by the FULL resolved colour (RGB and alpha);
+    a hit returns the stored colour, a miss applies `f` and stores the result -/
+def backendColor (f : Color → Color) (cache : List (Color × Color)) (c : Color) : Color × List (Color × Color) :=
+  match cache.find? (fun p => p.1 = c) with
+  | some p => (p.2, cache)
+  | none => (f c, (c, f c) :: cache)
+
+/-- all primitives of ONE rendering pass through the same pipeline object, in drawing order -/
+def pipelineColors (f : Color → Color) : List (Color × Color) → List Prim → List Prim × List (Color × Color)
+  | cache, [] => ([], cache)
+  | cache, p :: ps =>
+    let r := backendColor f cache p.color
+    let rest := pipelineColors f r.2 ps
+    ({ p with color := r.1 } :: rest.1, rest.2)
+
+/-- what the backend receives for the primitives `ps` of one `draw_layout` -/
+def backendStage (pol : ColorPolicy) (custom : Color) (gray : Nat → Nat) (ps : List Prim) : List Prim :=
+  (pipelineColors (applyColorPolicy pol custom gray) [] ps).1
+
+/-- `config.BackgroundPolicy` -/
+inductive BgPolicy where
+  | default | white | black | paperspace | modelspace | off | custom
+deriving DecidableEq, Repr, Inhabited
+
+/-- `Frontend.set_background` + `LayoutProperties.set_colors`: the foreground colour (ACI 7, BYLAYER of a layer with colour 7,
+    BYBLOCK at layout level) is white on a dark background and black otherwise; DEFAULT keeps the background of the layout
+    (modelspace dark, paperspace white), OFF is white and fully transparent, `customDark` = `is_dark_color(custom_bg_color)` -/
+def layoutFg (pol : BgPolicy) (isMsp : Bool) (customDark : Bool) : Nat :=
+  let dark : Bool :=
+    match pol with
+    | .default => isMsp
+    | .white => false
+    | .black => true
+    | .paperspace => false
+    | .modelspace => true
+    | .off => false
+    | .custom => customDark
+  if dark then 0xFFFFFF else 0
+
+/-- `RenderContext.resolve_visible` for a 3DFACE (fix bb5ad742d): hidden if all four edges are invisible, otherwise like any
+    other entity (layer state, invisible flag) -/
+def resolveVisibleFace (ctx : Ctx) (allEdgesHidden : Bool) (key : String) (e : EProps) : Bool :=
+  if allEdgesHidden then false else resolveVisible ctx false false key e
 
 /-! ## specification: what the document defines -/
 
